@@ -62,6 +62,10 @@ def run(ctx):
         check_map(ctx, m.functions[name])
     rule_squeeze(ctx, 'C16.R3')
     rule_projections(ctx, 'C16.R4')
+    # "defined for every existing cycle": the label vector the maps work on numbers the cycles of every column
+    # 0..K-1 (a counter carried over between columns leaves labels that own no samples)
+    from . import c12, cyclevec
+    c12.rule_labelling(ctx, 'C16.R5', cyclevec.get(ctx, False, False), 'return_good=False')
     rule_dead_contiguity_guards(ctx)
 
 
